@@ -321,6 +321,9 @@ def run(F, rep, tier):
             rep.viol('R13.10', 'CartesianProduct|returns-argument', 'CartesianProduct::run returns one of its argument sequences unchanged: `\'ab\' ** 1` is the string itself instead of the list of its elements', cpb.loc(back[0]))
         else:
             rep.ok('R13.10', 'CartesianProduct::run', 'results are freshly built lists')
+    from .streamfields import range_reversed_rule
+    range_reversed_rule(F, rep, 'R13.11')
+
     rep.undecided += ['f(xs) == reference(xs) for map/filter/partition/flat_map/flatten/zip/window/group/fold/scan/... (value equations)',
                       'the complete enumeration order of permutations/combinations/subsequences beyond their first element']
     return META
